@@ -697,7 +697,7 @@ class DataType(object):
 
         element = e.choice()
         for allowed_value in split_data_type[1:]:
-            element.append(e.value(allowed_value))
+            element.append(e.value(allowed_value, type='string'))
 
         return element
 
